@@ -19,6 +19,7 @@ CertInfo(c) ==
     [] c = "server_notyet"       -> [issuer |-> "ca1", valid |-> "notyet", roles |-> 0, role |-> "", names |-> {"test.com", "127.0.0.1"}]
     [] c = "client_operator"     -> [issuer |-> "ca1", valid |-> "ok", roles |-> 1, role |-> "operator", names |-> {}]
     [] c = "client_viewer"       -> [issuer |-> "ca1", valid |-> "ok", roles |-> 1, role |-> "viewer", names |-> {}]
+    [] c = "client_mixedcase"    -> [issuer |-> "ca1", valid |-> "ok", roles |-> 1, role |-> "OpeRator", names |-> {}]
     [] c = "client_norole"       -> [issuer |-> "ca1", valid |-> "ok", roles |-> 0, role |-> "", names |-> {}]
     [] c = "client_tworoles"     -> [issuer |-> "ca1", valid |-> "ok", roles |-> 2, role |-> "", names |-> {}]
     [] c = "client_ca2_operator" -> [issuer |-> "ca2", valid |-> "ok", roles |-> 1, role |-> "operator", names |-> {}]
